@@ -298,6 +298,75 @@ def check_solution(spec, accepted, sol):
     return None
 
 
+ASYM = ['0010', '0100', '1011', '1101', '0011', '0101', '1100', '1010']   # GT, LT, GEQ, LEQ, LIFF, RIFF, LNOT, RNOT as op tables
+
+
+def gen_planted(rng):
+    """a function that HAS a circuit of the requested size over a small custom basis, by construction: a random circuit
+    over the basis is drawn first and its table is the request (completeness by witness, for sizes the brute force
+    cannot enumerate). The bases are small and mostly contain an order-sensitive operation WITHOUT its mirror image, so
+    that which of two gates comes first, and which operand is the left one, cannot be repaired by renumbering."""
+    n = rng.choice([3, 4, 4, 5])
+    N = rng.choice([2, 3, 3, 4])
+    basis = sorted(set([rng.choice(ASYM)] + rng.sample(OPS, rng.randint(0, 2)) + ([rng.choice(['0001', '0111', '0110'])] if rng.random() < 0.7 else [])))
+    preds, ops = [], []
+    for g in range(n, n + N):
+        # later gates prefer earlier gates as operands, so that the circuit is one cone
+        pool = list(range(g))
+        a, b = sorted(rng.sample(pool, 2))
+        if g > n and rng.random() < 0.7:
+            hi = rng.randrange(n, g)
+            lo = rng.choice([x for x in pool if x != hi])
+            a, b = sorted((hi, lo))
+        preds.append([a, b])
+        ops.append(rng.choice(basis))
+    m = rng.choice([1, 1, 2])
+    outs = [n + N - 1] + [rng.randrange(n, n + N) for _ in range(m - 1)]
+    table = []
+    for h in range(m):
+        row = ''
+        for t in range(1 << n):
+            vals = [(t >> (n - 1 - i)) & 1 for i in range(n)]
+            for k, (a, b) in enumerate(preds):
+                vals.append(1 if apply_op(ops[k], vals[a], vals[b]) else 0)
+            row += str(vals[outs[h]])
+        table.append(row)
+    if rng.random() < 0.2:
+        t = rng.randrange(1 << n)
+        table[0] = table[0][:t] + '*' + table[0][t + 1:]
+    spec = {'n': n, 'm': m, 'N': N, 'table': table, 'bkind': 'custom', 'basis': basis, 'normalized': False, 'cons': [],
+            'edit_list_after': None}
+    return spec, {'preds': preds, 'ops': ops, 'outs': outs}
+
+
+def planted_search(ctx):
+    from cirbo.synthesis.exception import NoSolutionError
+    rng = ctx.rng('planted')
+    for k in range(ctx.scale(220, 2500)):
+        spec, witness = gen_planted(rng)
+        if check_solution(spec, [], witness) is not None:
+            continue
+        ctx.case(json.dumps(['planted', spec]))
+        ctx.count('planted:n=%d,N=%d' % (spec['n'], spec['N']))
+        try:
+            f, accepted, rejected = make_finder(spec)
+            circ = f.find_circuit(time_limit=60) if k % 2 else f.find_circuit()
+        except NoSolutionError:
+            ctx.violation('synth.incomplete', f'NoSolutionError although a circuit with {spec["N"]} gates over the basis exists (witness attached)',
+                          input={'spec': spec, 'accepted': [], 'witness': witness})
+            continue
+        except Exception as e:  # noqa: BLE001
+            ctx.violation('synth.raises', f'find_circuit raised {err_name(e)}', input={'spec': spec})
+            continue
+        try:
+            why = check_solution(spec, accepted, circuit_to_sol(spec, circ))
+        except Exception as e:  # noqa: BLE001
+            why = 'returned circuit is not in the promised shape (%s)' % err_name(e)
+        if why:
+            ctx.violation('synth.unsound', why, input={'spec': spec, 'accepted': accepted})
+        ctx.count('planted:found')
+
+
 def brute_force_exists(spec, accepted):
     n, m, N = spec['n'], spec['m'], spec['N']
     if N == 0:
@@ -325,6 +394,7 @@ def search(ctx):
     rng = ctx.rng('search')
     from cirbo.synthesis.exception import NoSolutionError
     from cirbo.synthesis.circuit_search import Basis
+    planted_search(ctx)
     for name, ops in BASES.items():
         got = sorted(o.value for o in getattr(Basis, name).value)
         if got != sorted(ops):
